@@ -1231,27 +1231,21 @@ Section Denote.
       destruct Hn; subst g; inversion H; reflexivity. }
     clear H. subst ops. unfold max3, min3 in *.
     remember (Nat.min q0 (Nat.min q1 q2)) as lo eqn:Hlo.
+    assert (R0 : q0 = lo \/ q0 = lo + 1 \/ q0 = lo + 2) by lia.
+    assert (R1 : q1 = lo \/ q1 = lo + 1 \/ q1 = lo + 2) by lia.
+    assert (R2 : q2 = lo \/ q2 = lo + 1 \/ q2 = lo + 2) by lia.
+    clear Hlo Hm Hnd.
     unfold run_ops. cbn [fold_left].
     destruct Hn; subst g; unfold den, mode0; rewrite half_double.
-    - assert (C : (q2 = lo /\ ((q0 = lo + 1 /\ q1 = lo + 2) \/ (q0 = lo + 2 /\ q1 = lo + 1))) \/
-                  (q2 = lo + 1 /\ ((q0 = lo /\ q1 = lo + 2) \/ (q0 = lo + 2 /\ q1 = lo))) \/
-                  (q2 = lo + 2 /\ ((q0 = lo /\ q1 = lo + 1) \/ (q0 = lo + 1 /\ q1 = lo)))) by lia.
-      clear Hlo Hm Hnd.
-      destruct C as [[E2 [[E0 E1]|[E0 E1]]]|[[E2 [[E0 E1]|[E0 E1]]]|[E2 [[E0 E1]|[E0 E1]]]]];
-        subst q0 q1 q2.
-      + rewrite Nat.sub_diag. reflexivity.
-      + rewrite Nat.sub_diag. apply ccx_sym.
-      + replace (lo + 1 - lo) with 1 by lia. reflexivity.
-      + replace (lo + 1 - lo) with 1 by lia. apply ccx_sym.
-      + replace (lo + 2 - lo) with 2 by lia. reflexivity.
-      + replace (lo + 2 - lo) with 2 by lia. apply ccx_sym.
+    - destruct R0 as [R0|[R0|R0]]; destruct R1 as [R1|[R1|R1]]; destruct R2 as [R2|[R2|R2]];
+        subst q0 q1 q2; try congruence;
+        rewrite ?Nat.sub_diag;
+        try replace (lo + 1 - lo) with 1 by (clear; lia);
+        try replace (lo + 2 - lo) with 2 by (clear; lia);
+        first [reflexivity | apply ccx_sym].
     - apply ccz_sym.
-      assert (C : (q0 = lo /\ ((q1 = lo + 1 /\ q2 = lo + 2) \/ (q1 = lo + 2 /\ q2 = lo + 1))) \/
-                  (q0 = lo + 1 /\ ((q1 = lo /\ q2 = lo + 2) \/ (q1 = lo + 2 /\ q2 = lo))) \/
-                  (q0 = lo + 2 /\ ((q1 = lo /\ q2 = lo + 1) \/ (q1 = lo + 1 /\ q2 = lo)))) by lia.
-      clear Hlo Hm Hnd.
-      destruct C as [[E0 [[E1 E2]|[E1 E2]]]|[[E0 [[E1 E2]|[E1 E2]]]|[E0 [[E1 E2]|[E1 E2]]]]];
-        subst q0 q1 q2.
+      destruct R0 as [R0|[R0|R0]]; destruct R1 as [R1|[R1|R1]]; destruct R2 as [R2|[R2|R2]];
+        subst q0 q1 q2; try congruence.
       + apply Permutation_refl.
       + apply perm_skip, perm_swap.
       + apply perm_swap.
@@ -1305,3 +1299,43 @@ Section Denote.
     eapply conv_spec_den; eauto.
   Qed.
 End Denote.
+(* a non-degenerate interpretation satisfying the laws of section Denote: states are
+   words over qubit names, exchanges and the swap gate rename, other gates do nothing *)
+Definition w_sw (a b : nat) (s : list nat) : list nat := map (transp a b) s.
+Definition w_act (g : gname) (i : nat) (qs : list nat) (s : list nat) : list nat :=
+  match g, qs with
+  | Gswap, [a; b] => map (transp a b) s
+  | _, _ => s
+  end.
+
+Lemma transp_invol a b x : transp a b (transp a b x) = x.
+Proof. unfold transp. eqbs_in; lia. Qed.
+
+Lemma transp_conj a b c d x :
+  transp a b (transp c d (transp a b x)) = transp (transp a b c) (transp a b d) x.
+Proof.
+  unfold transp.
+  destruct (Nat.eqb_spec x a); destruct (Nat.eqb_spec x b); destruct (Nat.eqb_spec c a);
+    destruct (Nat.eqb_spec c b); destruct (Nat.eqb_spec d a); destruct (Nat.eqb_spec d b);
+    subst; eqbs_in; lia.
+Qed.
+
+Lemma denote_laws_satisfiable :
+  (forall a b c d s, a <> c -> a <> d -> b <> c -> b <> d -> w_sw a b (w_sw c d s) = w_sw c d (w_sw a b s)) /\
+  (forall a b g i qs s, w_sw a b (w_act g i qs (w_sw a b s)) = w_act g i (map (transp a b) qs) s) /\
+  (forall i a b s, w_act Gswap i [a; b] s = w_sw a b s) /\
+  (forall i a b s, w_act Gcz i [a; b] s = w_act Gcz i [b; a] s) /\
+  (forall i l l' s, Permutation l l' -> w_act Gccz i l s = w_act Gccz i l' s) /\
+  (forall i a b t s, w_act Gccx i [a; b; t] s = w_act Gccx i [b; a; t] s) /\
+  w_act Gswap 0 [0; 1] [0; 1; 2] = [1; 0; 2].
+Proof.
+  assert (Inv : forall a b s, map (transp a b) (map (transp a b) s) = s).
+  { intros. rewrite map_map. rewrite <- (map_id s) at 2. apply map_ext. intros; apply transp_invol. }
+  repeat split; try reflexivity.
+  - intros a b c d s H1 H2 H3 H4. unfold w_sw. rewrite !map_map. apply map_ext. intros x.
+    unfold transp. eqbs_in; lia.
+  - intros a b g i qs s. unfold w_sw, w_act.
+    destruct g; try apply Inv.
+    destruct qs as [|c [|d [|e r]]]; cbn [map]; try apply Inv.
+    rewrite !map_map. apply map_ext. intros x. apply transp_conj.
+Qed.
